@@ -253,8 +253,11 @@ type vfHistStats struct {
 
 // vfRunHistory runs ops against the real filter, the operational model and
 // (while applicable) the declarative semantics.  Returns "" or a violation.
-func vfRunHistory(ttl int64, ops []vfOp, st *vfHistStats) string {
-	f, err := New(time.Duration(ttl) * time.Second)
+func vfRunHistory(ttl int64, ops []vfOp, st *vfHistStats, unit time.Duration) string {
+	if unit == 0 {
+		unit = time.Second
+	}
+	f, err := New(time.Duration(ttl) * unit)
 	if err != nil {
 		return "VIOL[c11-new]: " + err.Error()
 	}
@@ -281,7 +284,7 @@ func vfRunHistory(ttl int64, ops []vfOp, st *vfHistStats) string {
 			st.partial = true
 		}
 		exp0 := m.expired
-		got := f.TestAndSet(vfBase.Add(time.Duration(now)*time.Second), []byte(op.V))
+		got := f.TestAndSet(vfBase.Add(time.Duration(now)*unit), []byte(op.V))
 		want := m.testAndSet(now, op.V)
 		if m.expired > exp0 {
 			st.expiry = true
@@ -332,14 +335,15 @@ func vfReplayCase(t *testing.T) bool {
 		return false
 	}
 	var c struct {
-		TTL int64  `json:"ttl"`
-		Ops []vfOp `json:"ops"`
+		TTL  int64  `json:"ttl"`
+		Ops  []vfOp `json:"ops"`
+		Unit int64  `json:"unit_ns"`
 	}
 	if err := json.Unmarshal([]byte(rc), &c); err != nil {
 		t.Fatalf("bad replay case: %v", err)
 	}
 	var st vfHistStats
-	if msg := vfRunHistory(c.TTL, c.Ops, &st); msg != "" {
+	if msg := vfRunHistory(c.TTL, c.Ops, &st, time.Duration(c.Unit)); msg != "" {
 		t.Fatalf("%s", msg)
 	}
 	return true
@@ -351,9 +355,13 @@ func TestVerifC11Enum(t *testing.T) {
 		return
 	}
 	c := ev.For("C11")
-	c.Rule("enum: every history of exactly L operations (value x time step in {-2..4}) for TTL in {0,3}, checked after every operation (so all shorter histories are covered as prefixes); non-trivial = history with a TTL expiry and a re-insert of an expired value, or a backward clock jump over a non-empty filter; distinct by construction")
+	c.Rule("enum: every history of exactly L operations (value x time step in {-2..4} ticks) for TTL in {0,3} ticks, each run with a tick of 1 s and of 250 ms (thorough: also 1 ns and 1.5 s), checked after every operation (so all shorter histories are covered as prefixes); non-trivial = history with a TTL expiry and a re-insert of an expired value, or a backward clock jump over a non-empty filter; distinct by construction")
 	shard, nshards := ev.IntEnv("VERIF_SHARD", 0), ev.IntEnv("VERIF_NSHARDS", 1)
 	steps := []int64{-2, -1, 0, 1, 2, 3, 4}
+	units := []time.Duration{time.Second, 250 * time.Millisecond}
+	if ev.Thorough() {
+		units = append(units, time.Nanosecond, 1500*time.Millisecond)
+	}
 	type cfg struct {
 		vals []string
 		L    int
@@ -376,10 +384,15 @@ func TestVerifC11Enum(t *testing.T) {
 						ops[i] = vfOp{cf.vals[k/len(steps)], steps[k%len(steps)]}
 					}
 					var st vfHistStats
-					if msg := vfRunHistory(ttl, ops, &st); msg != "" {
-						js, _ := json.Marshal(map[string]any{"ttl": ttl, "ops": ops})
-						fmt.Printf("VERIF-REPLAY-CASE: %s\n", js)
-						t.Fatalf("%s\nhistory ttl=%d ops=%v", msg, ttl, ops)
+					// one tick of the history = 1 s, and the same history again with a
+					// tick of 250 ms (timestamps with different sub-second parts; TTL 750 ms)
+					for _, unit := range units {
+						st = vfHistStats{}
+						if msg := vfRunHistory(ttl, ops, &st, unit); msg != "" {
+							js, _ := json.Marshal(map[string]any{"ttl": ttl, "ops": ops, "unit_ns": int64(unit)})
+							fmt.Printf("VERIF-REPLAY-CASE: %s\n", js)
+							t.Fatalf("%s\nhistory tick=%v ttl=%d ops=%v", msg, unit, ttl, ops)
+						}
 					}
 					total++
 					if (st.expiry && st.reinsert) || st.backward {
@@ -416,7 +429,7 @@ func TestVerifC11Enum(t *testing.T) {
 
 func TestVerifC11Machine(t *testing.T) {
 	c := ev.For("C11")
-	c.Rule("machine: rapid state machine of up to 200 TestAndSet operations over a pool of 12 values with forward steps, TTL-boundary steps, big jumps, backward jumps and bulk fills to capacity-delta and beyond (102400 + k real inserts); non-trivial = history with (expiry and re-insert) or overflow or backward jump; fingerprint = op list")
+	c.Rule("machine: rapid state machine of up to 200 TestAndSet operations (time in ticks; one tick = 1 s, 250 ms, 100 ms, 1 ms, 1 ns or 1.5 s, drawn per case, so timestamps and TTLs have sub-second parts) over a pool of 12 values with forward steps, TTL-boundary steps, big jumps, backward jumps and bulk fills to capacity-delta and beyond (102400 + k real inserts); non-trivial = history with (expiry and re-insert) or overflow or backward jump; fingerprint = op list")
 	c.Floor("machine-expiry+reinsert/machine", 0.15)
 	c.Floor("machine-backward/machine", 0.10)
 	c.Floor("machine-overflow/machine", 0.01)
@@ -427,7 +440,8 @@ func TestVerifC11Machine(t *testing.T) {
 	var fills int
 	rapid.Check(t, func(rt *rapid.T) {
 		ttl := rapid.SampledFrom([]int64{0, 1, 3, 10, 3600 * 3}).Draw(rt, "ttl")
-		f, err := New(time.Duration(ttl) * time.Second)
+		unit := rapid.SampledFrom([]time.Duration{time.Second, time.Second, 250 * time.Millisecond, 100 * time.Millisecond, time.Millisecond, time.Nanosecond, 1500 * time.Millisecond}).Draw(rt, "tick")
+		f, err := New(time.Duration(ttl) * unit)
 		if err != nil {
 			rt.Fatalf("VIOL[c11-new]: %v", err)
 		}
@@ -450,7 +464,7 @@ func TestVerifC11Machine(t *testing.T) {
 				st.partial = true
 			}
 			exp0, ev0 := m.expired, m.evicted
-			got := f.TestAndSet(vfBase.Add(time.Duration(now)*time.Second), []byte(v))
+			got := f.TestAndSet(vfBase.Add(time.Duration(now)*unit), []byte(v))
 			want := m.testAndSet(now, v)
 			if m.expired > exp0 {
 				st.expiry = true
@@ -579,11 +593,12 @@ func TestVerifC11Machine(t *testing.T) {
 			cls = append(cls, "machine-partial-backward")
 		}
 		h := append([]string(nil), hist...)
-		c.Case(ev.Hash(ttl, strings.Join(hist, ",")), nt, cls, func() any {
+		cls = append(cls, fmt.Sprintf("machine-tick-%v", unit))
+		c.Case(ev.Hash(ttl, int64(unit), strings.Join(hist, ",")), nt, cls, func() any {
 			if len(h) > 40 {
 				h = append(h[:40], fmt.Sprintf("...(%d ops)", len(h)))
 			}
-			return map[string]any{"ttl": ttl, "ops": h}
+			return map[string]any{"ttl_ticks": ttl, "tick": unit.String(), "ops": h}
 		})
 	})
 }
